@@ -268,21 +268,30 @@ var intReaders = []intReader{
 			return big.NewInt(t), p, e, t != -7777
 		}},
 	{"Uint64", bi("0"), bi("18446744073709551615"),
-		func(d []byte) (*big.Int, int, error) { v, p, e := rjson.ReadUint64(d); return new(big.Int).SetUint64(v), p, e },
+		func(d []byte) (*big.Int, int, error) {
+			v, p, e := rjson.ReadUint64(d)
+			return new(big.Int).SetUint64(v), p, e
+		},
 		func(d []byte) (*big.Int, int, error, bool) {
 			t := uint64(7777)
 			p, e := rjson.DecodeUint64(d, &t)
 			return new(big.Int).SetUint64(t), p, e, t != 7777
 		}},
 	{"Int32", bi("-2147483648"), bi("2147483647"),
-		func(d []byte) (*big.Int, int, error) { v, p, e := rjson.ReadInt32(d); return big.NewInt(int64(v)), p, e },
+		func(d []byte) (*big.Int, int, error) {
+			v, p, e := rjson.ReadInt32(d)
+			return big.NewInt(int64(v)), p, e
+		},
 		func(d []byte) (*big.Int, int, error, bool) {
 			t := int32(-7777)
 			p, e := rjson.DecodeInt32(d, &t)
 			return big.NewInt(int64(t)), p, e, t != -7777
 		}},
 	{"Uint32", bi("0"), bi("4294967295"),
-		func(d []byte) (*big.Int, int, error) { v, p, e := rjson.ReadUint32(d); return new(big.Int).SetUint64(uint64(v)), p, e },
+		func(d []byte) (*big.Int, int, error) {
+			v, p, e := rjson.ReadUint32(d)
+			return new(big.Int).SetUint64(uint64(v)), p, e
+		},
 		func(d []byte) (*big.Int, int, error, bool) {
 			t := uint32(7777)
 			p, e := rjson.DecodeUint32(d, &t)
@@ -296,7 +305,10 @@ var intReaders = []intReader{
 			return big.NewInt(int64(t)), p, e, t != -7777
 		}},
 	{"Uint", bi("0"), new(big.Int).SetUint64(math.MaxUint),
-		func(d []byte) (*big.Int, int, error) { v, p, e := rjson.ReadUint(d); return new(big.Int).SetUint64(uint64(v)), p, e },
+		func(d []byte) (*big.Int, int, error) {
+			v, p, e := rjson.ReadUint(d)
+			return new(big.Int).SetUint64(uint64(v)), p, e
+		},
 		func(d []byte) (*big.Int, int, error, bool) {
 			t := uint(7777)
 			p, e := rjson.DecodeUint(d, &t)
